@@ -733,6 +733,87 @@ fn permutations(n: usize) -> Vec<Vec<usize>> {
     out
 }
 
+/// An implementor that answers every poll with a fixed value: what the implementor returns is what the caller of the opaque object
+/// gets, for every method of Future / Stream / Sink and every kind of answer.
+#[derive(Clone, Copy)]
+struct Fixed {
+    /// 0 Pending, 1 Ready(ok-ish value), 2 Ready(the other arm: None / Err)
+    ans: u8,
+    val: u32,
+}
+impl Future for Fixed {
+    type Output = u32;
+    fn poll(self: Pin<&mut Self>, _cx: &mut Context<'_>) -> Poll<u32> {
+        if self.ans == 0 { Poll::Pending } else { Poll::Ready(self.val) }
+    }
+}
+impl futures::Stream for Fixed {
+    type Item = u32;
+    fn poll_next(self: Pin<&mut Self>, _cx: &mut Context<'_>) -> Poll<Option<u32>> {
+        match self.ans { 0 => Poll::Pending, 1 => Poll::Ready(Some(self.val)), _ => Poll::Ready(None) }
+    }
+}
+impl Fixed {
+    fn res(&self) -> Poll<Result<(), u32>> {
+        match self.ans { 0 => Poll::Pending, 1 => Poll::Ready(Ok(())), _ => Poll::Ready(Err(self.val)) }
+    }
+}
+impl futures::Sink<u32> for Fixed {
+    type Error = u32;
+    fn poll_ready(self: Pin<&mut Self>, _cx: &mut Context<'_>) -> Poll<Result<(), u32>> {
+        self.res()
+    }
+    fn start_send(self: Pin<&mut Self>, item: u32) -> Result<(), u32> {
+        if self.ans == 1 { Ok(()) } else { Err(item ^ self.val) }
+    }
+    fn poll_flush(self: Pin<&mut Self>, _cx: &mut Context<'_>) -> Poll<Result<(), u32>> {
+        self.res()
+    }
+    fn poll_close(self: Pin<&mut Self>, _cx: &mut Context<'_>) -> Poll<Result<(), u32>> {
+        self.res()
+    }
+}
+
+const RESULT_METHODS: [&str; 6] = ["Future::poll", "Stream::poll_next", "Sink::poll_ready", "Sink::start_send", "Sink::poll_flush", "Sink::poll_close"];
+const RESULT_VALS: [u32; 5] = [0, 1, 7, 0xffff, u32::MAX];
+
+fn poll_result_case(method: usize, ans: u8, vi: usize) -> CaseOut {
+    let fx = Fixed { ans, val: RESULT_VALS[vi] };
+    let (w, _slot) = manual_waker(false);
+    let mut cx = Context::from_waker(&w);
+    let mut direct = fx;
+    let (want, got): (String, String) = match method {
+        0 => {
+            let mut o = trait_obj!(fx as Future);
+            (format!("{:?}", Pin::new(&mut direct).poll(&mut cx)), format!("{:?}", Future::poll(Pin::new(&mut o), &mut cx)))
+        }
+        1 => {
+            let mut o = trait_obj!(fx as Stream);
+            (format!("{:?}", futures::Stream::poll_next(Pin::new(&mut direct), &mut cx)), format!("{:?}", futures::Stream::poll_next(Pin::new(&mut o), &mut cx)))
+        }
+        2 => {
+            let mut o = trait_obj!(fx as Sink);
+            (format!("{:?}", futures::Sink::<u32>::poll_ready(Pin::new(&mut direct), &mut cx)), format!("{:?}", futures::Sink::<u32>::poll_ready(Pin::new(&mut o), &mut cx)))
+        }
+        3 => {
+            let mut o = trait_obj!(fx as Sink);
+            (format!("{:?}", futures::Sink::<u32>::start_send(Pin::new(&mut direct), 5)), format!("{:?}", futures::Sink::<u32>::start_send(Pin::new(&mut o), 5)))
+        }
+        4 => {
+            let mut o = trait_obj!(fx as Sink);
+            (format!("{:?}", futures::Sink::<u32>::poll_flush(Pin::new(&mut direct), &mut cx)), format!("{:?}", futures::Sink::<u32>::poll_flush(Pin::new(&mut o), &mut cx)))
+        }
+        _ => {
+            let mut o = trait_obj!(fx as Sink);
+            (format!("{:?}", futures::Sink::<u32>::poll_close(Pin::new(&mut direct), &mut cx)), format!("{:?}", futures::Sink::<u32>::poll_close(Pin::new(&mut o), &mut cx)))
+        }
+    };
+    if want != got {
+        return CaseOut::bad("poll:result", format!("{} of an implementor that answers {} comes back as {} through the opaque object", RESULT_METHODS[method], want, got));
+    }
+    CaseOut::ok(digest(&(method, ans, vi, want)))
+}
+
 /// While the last handle of a waker family is being released (inside the release of the caller's waker clone it held), ANOTHER
 /// thread polls the task again with the same caller waker and retains the waker it is given. The new handle must be a
 /// fully valid one: waking it wakes the caller, letting go of it releases exactly what it acquired.
@@ -874,6 +955,20 @@ fn main() {
             }
         }),
         replay: Box::new(|case: &Value| chain_case(case["n"].as_u64().unwrap() as usize, case["by_wake"].as_bool().unwrap())),
+    });
+    sections.push(Section {
+        name: "poll_results",
+        explore: Box::new(|cx: &Cx| {
+            cx.rule("poll_results", "an implementor with a fixed answer behind trait_obj!(.. as Future / Stream / Sink): every method (poll, poll_next, poll_ready, start_send, poll_flush, poll_close) x answer {Pending, Ready(value / Some / Ok), Ready(None / Err(e))} x value / error code {0, 1, 7, 0xffff, u32::MAX}: the caller of the opaque object gets exactly what the implementor returned");
+            for m in 0..RESULT_METHODS.len() {
+                for ans in 0..3u8 {
+                    for vi in 0..RESULT_VALS.len() {
+                        cx.eval("poll_results", &serde_json::json!({"method": m, "method_name": RESULT_METHODS[m], "answer": ans, "value": vi}), || poll_result_case(m, ans, vi));
+                    }
+                }
+            }
+        }),
+        replay: Box::new(|case: &Value| poll_result_case(case["method"].as_u64().unwrap() as usize, case["answer"].as_u64().unwrap() as u8, case["value"].as_u64().unwrap() as usize)),
     });
     sections.push(Section {
         name: "nested_retained",
